@@ -21,6 +21,7 @@ import (
 	"github.com/gogo/protobuf/types"
 	gogostatus "github.com/gogo/status"
 	"google.golang.org/grpc/codes"
+	"google.golang.org/grpc/metadata"
 	grpcstatus "google.golang.org/grpc/status"
 )
 
@@ -166,6 +167,10 @@ func (c20) Run(t *tape.Tape, tier Tier) *Result {
 				ctx, cancel := context.WithTimeout(context.Background(), 90*time.Second)
 				req := &errgrpc.EchoRequest{Text: hs[assign[i]].id}
 				cctx, ccancel := context.WithCancel(ctx)
+				if i%3 == 1 {
+					// the caller already has outgoing metadata (credentials, request ids)
+					cctx = metadata.AppendToOutgoingContext(cctx, "x-request-id", fmt.Sprint("rq", i))
+				}
 				if tagged[i] {
 					// the caller's context carries log tags (a relay calling
 					// downstream with its request context)
